@@ -79,11 +79,22 @@ MEM_SPELL = [lambda v: (v, 'M'), lambda v: (v * 1024, 'K'), lambda v: (v, 'm'), 
 CPU_SPELL = [lambda v: (v, '%'), lambda v: (v, '')]
 
 
+BIG_SPELL = [lambda v: (v, 'M'), lambda v: (v, 'm'),
+             lambda v: (v // 1024, 'G') if v % 1024 == 0 else (v, 'M'),
+             lambda v: (v // 1048576, 'T') if v % 1048576 == 0 else (v, 'M'),
+             lambda v: (v // 1048576, 't') if v % 1048576 == 0 else (v, 'm')]
+
+
+def _mem_spell(v, rng):
+    # (large quantities: only spellings whose arithmetic stays below 2^31 in TLC)
+    return rng.choice(BIG_SPELL if v >= 100000 else MEM_SPELL)(v)
+
+
 def spell(vec, rng):
     """[mem MB, cpu %, disk MB] -> ([ [mantissa, suffix] x3 ], resource doc)."""
-    m = rng.choice(MEM_SPELL)(vec[0])
+    m = _mem_spell(vec[0], rng)
     c = rng.choice(CPU_SPELL)(vec[1])
-    d = rng.choice(MEM_SPELL)(vec[2])
+    d = _mem_spell(vec[2], rng)
     doc = {'memory': '%d%s' % m, 'cpu': ('%d%s' % c) if c[1] else c[0], 'disk': '%d%s' % d}
     return [list(m), list(c), list(d)], doc
 
@@ -125,6 +136,7 @@ class World:
             self.spells = {}         # server / app model name -> spelling used
             self.obs_down = {}       # server -> tick at which its presence was lost
             self.obs_frozen = set()  # servers an administrator froze (and nothing undid since)
+            self.plain_down = set()  # servers the master saw lose their presence, untouched since
             self.queues = []
             self.placement = None
             world = self
@@ -210,6 +222,11 @@ class World:
             m.process_complete[path] = threading.Event()
             self.delivered[path] = sorted(self.admin.get_children(path))
         self.master = m
+        # a new master has read every record as it is now
+        for name in list(self.spells):
+            if name in self.scn['server_init'] and len(self.spells[name]) > 1:
+                self.spells[name] = self.spells[name][-1:]
+        self.plain_down = {s for s in self.scn['server_init'] if s not in self.nodes}
 
     # -- producers --------------------------------------------------------
     def _create_server(self, s, idx):
@@ -221,9 +238,23 @@ class World:
         sp = self.scn['sprofiles'][idx - 1]
         data = zkutils.get(self.admin, z.path.server(s)) or {}
         sp_spell, doc = spell(sp['cap'], self.rng)
+        # the spellings the master may legitimately hold: a registration it is told
+        # about at once (presence watch -> reload_server), or that a new master will
+        # read, supersedes the earlier ones; one that arrives while watch delivery
+        # is deferred may go unnoticed (the presence listing looks unchanged)
+        # (chronological; a registration the master is bound to read - it saw the
+        # server plainly go down, so the presence watch makes it reload the record,
+        # or a new master loads everything - supersedes the earlier ones; a frozen
+        # server, or one whose loss went unnoticed, is not reloaded)
         self.spells.setdefault(s, [])
-        if sp_spell not in self.spells[s]:
-            self.spells[s].append(sp_spell)
+        if sp_spell in self.spells[s]:
+            self.spells[s].remove(sp_spell)
+        self.spells[s].append(sp_spell)
+        told = (self.master is not None and not getattr(self, 'deferred', False)
+                and s in getattr(self, 'plain_down', set()))
+        if told:
+            self.spells[s] = [sp_spell]
+        getattr(self, 'plain_down', set()).discard(s)
         data.update(doc)
         data['traits'] = list(sp.get('traits', []))
         data['up_since'] = int(self.v.time())
@@ -280,6 +311,7 @@ class World:
         # it dates the loss from when it processes the event)
         if self.master is not None and not getattr(self, 'deferred', False):
             self.obs_down[s] = self.v.ticks
+            self.plain_down.add(s)
         self.obs_frozen.discard(s)      # the state record becomes "down"
 
     def ev_SetPartition(self, s, label):
@@ -292,6 +324,7 @@ class World:
 
     def ev_ServerState(self, s, state, apps):
         self.obs_down.pop(s, None)      # an administrator's word overrides the observer
+        self.plain_down.discard(s)
         if (state == 'frozen' and self.master is not None and s in self.nodes
                 and not getattr(self, 'deferred', False)
                 and self.admin.exists(z.path.server(s))):
